@@ -87,8 +87,20 @@ func C09(run *Run) {
 			trig, _ := ds.Disarm()
 			cancel()
 			if !trig {
-				rec.Add(ev) // ran undisturbed: judged like any other answer
-				run.Evals++
+				// ran undisturbed: judged like any other answer (the weighted-graph engine as in C03)
+				if combo == "server:v2:ic:shi" {
+					if IsPlainSubj(victim.U) {
+						v1 := &CheckEv{Eng: "v1:default", O: victim.O, R: victim.R, U: victim.U, Ctx: victim.Ctx}
+						v.Base.RunCheck(ctx, v1, ts, mg)
+						vev := &V2Ev{CheckEv: *ev}
+						fillV2(vev, v1, cs, ts, victim)
+						rec.Add(vev)
+						run.Evals++
+					}
+				} else {
+					rec.Add(ev)
+					run.Evals++
+				}
 				break
 			}
 			cancelled++
